@@ -205,7 +205,7 @@ def c_measures(rng):
     if rng.random() < 0.25 and all(math.isfinite(c) and float(c).is_integer() for c in gen._coords(cs.recipe['elements'])):
         # large integer coordinates (still exact in every subtype): areas beyond 2**24, which float32 cannot hold exactly
         els = gen.scaled(cs.recipe['elements'], 1025.0)
-        cs = gen.Case(kind, els, cs.recipe['steps'], gen.pick_dtype(rng, els))
+        cs = gen.Case(kind, els, cs.recipe['steps'], 'float32' if rng.random() < 0.5 else gen.pick_dtype(rng, els))
     out = []
     L, A = cs.arr.length, cs.arr.area
     for i, el in enumerate(cs.view):
@@ -357,6 +357,52 @@ def c_oriented(rng):
     except Exception as e:
         out.append(V(f'array.oriented/{kind}/second-call-raises-{type(e).__name__}', f'{e}', cs.recipe))
     return out
+
+
+@check(('C15', 'C14'), 'array.oriented-thin-rings')
+def c_oriented_thin(rng):
+    """thin triangles far from the origin with integer coordinates (exact in float32, int32 and float64): the shoelace
+    products need up to 41 bits and largely cancel, so the direction and the area are right only if the arithmetic
+    is done in float64; the expected direction and area come from exact integer arithmetic"""
+    kind = rng.choice(['polygon', 'multipolygon'])
+    dtype = rng.choice(['float32', 'float32', 'int32', 'float64'])
+    els, exact = [], []
+    for _ in range(rng.randint(1, 4)):
+        ax, ay = rng.randint(500000, 1200000), rng.randint(300000, 1000000)
+        m = rng.choice([1000, 20000, 200000])
+        dx, dy = rng.randint(-m, m), rng.randint(-m, m)
+        ex, ey = rng.choice([(1, 0), (0, 1), (-1, 2), (3, -1), (0, -2), (40, 25)])
+        if dx * ey - dy * ex == 0:
+            dx += 1
+            if dx * ey - dy * ex == 0:
+                dy += 1
+        ring = [ax, ay, ax + dx, ay + dy, ax - dx + ex, ay - dy + ey, ax, ay]
+        if rng.random() < 0.5:
+            ring = [c for p_ in list(zip(ring[0::2], ring[1::2]))[::-1] for c in p_]
+        ring = [float(c) for c in ring]
+        poly = [ring]
+        els.append(poly if kind == 'polygon' else [poly])
+        exact.append(abs(oracle.ring_area2(ring)) / 2)
+    arr = gen.build(kind, els, dtype)
+    recipe = {'kind': kind, 'elements': els, 'steps': [], 'dtype': dtype}
+    try:
+        o = arr.oriented()
+        got = o.data.to_pylist()
+        A = o.area
+    except Exception as e:
+        return [V(f'array.oriented-thin-rings/raises-{type(e).__name__}', f'{e}', recipe)]
+    for i, (g, el) in enumerate(zip(got, els)):
+        rin = el[0] if kind == 'polygon' else el[0][0]
+        rout = [float(v) for v in (g[0] if kind == 'polygon' else g[0][0])]
+        rev = [c for p_ in list(zip(rin[0::2], rin[1::2]))[::-1] for c in p_]
+        if rout != rin and rout != rev:
+            return [V(f'array.oriented-thin-rings/ring-not-same-or-reversed/{dtype}', f'row {i}: {rout} from {rin}', recipe)]
+        if ring_dir(rout) != 1:
+            return [V(f'array.oriented-thin-rings/shell-not-counter-clockwise/{dtype}', f'row {i}: {rout} (exact doubled area '
+                      f'{oracle.ring_area2(rout)})', recipe)]
+        if float(A[i]) != float(exact[i]):
+            return [V(f'array.oriented-thin-rings/area/{dtype}', f'row {i}: area {A[i]} exact {float(exact[i])}', recipe)]
+    return []
 
 
 # ------------------------------------------------------------------ C01
